@@ -1022,6 +1022,13 @@ pub fn family_wide() -> Vec<RefGrammar> {
 /// the shorter ones' states were already processed (late merges, re-propagation, stranded states).
 /// `small` keeps three prefixes (p, q, s s s).
 pub fn family_lalr3(small: bool) -> Vec<RefGrammar> {
+    family_lalr3_branches(small, false)
+}
+
+/// F-lalr3 with `A: x y | z y; B: x y | z y` (`two_branches`): the state after a prefix then has two
+/// successors with two-item kernels (on x and on z), and re-processing it after a late merge can
+/// split off two new states in one pass.
+pub fn family_lalr3_branches(small: bool, two_branches: bool) -> Vec<RefGrammar> {
     let prefixes: Vec<Vec<Sym>> = if small {
         vec![vec![T(0)], vec![T(1)], vec![T(3), T(3), T(3)]]
     } else {
@@ -1058,7 +1065,8 @@ pub fn family_lalr3(small: bool) -> Vec<RefGrammar> {
                         s.push(pc);
                     }
                 }
-                out.push(g(11, vec![s, vec![vec![T(4), T(5)]], vec![vec![T(4), T(5)]], vec![vec![T(4), T(6)]]]));
+                let ab = if two_branches { vec![vec![T(4), T(5)], vec![T(6), T(5)]] } else { vec![vec![T(4), T(5)]] };
+                out.push(g(11, vec![s, ab.clone(), ab, vec![vec![T(4), T(6)]]]));
             }
         }
         // next index vector
@@ -1139,4 +1147,59 @@ pub fn family_pager() -> Vec<PagerMember> {
             }
         })
         .collect()
+}
+
+/// F-lalr4: two-item kernels one level down, with a third party that feeds the same successor
+/// states from a different kernel. Tokens: p=0 q=1 r=2 n=3 m=4 x=5 y=6 e=7 f=8 g=9 h=10 and the
+/// suffixes a=11 b=12 c=13 d=14. Rules: S=0 U=1 V=2 P=3 Q=4 with `U: m P; V: m Q; P: x e | y f;
+/// Q: x g | y h`. The start rule has, for each of the contexts `p`, `q q q` (reached later) and
+/// `r n` (the third party, which uses P and Q directly), either nothing or `ctx U u | ctx V v`
+/// (`r n P u | r n Q v`) for one ordered pair u != v of the four suffix tokens. The state after
+/// `ctx m` has the kernel {U: m.P, V: m.Q}; its successors on x and on y have two-item kernels whose
+/// contexts come from all three parties: a late merge into the first makes its re-processing split
+/// off new states for both successors in one pass.
+pub fn family_lalr4() -> Vec<RefGrammar> {
+    let suff = [11usize, 12, 13, 14];
+    let mut pairs: Vec<Option<(usize, usize)>> = vec![None];
+    for u in suff {
+        for v in suff {
+            if u != v {
+                pairs.push(Some((u, v)));
+            }
+        }
+    }
+    let mut out = vec![];
+    for a in &pairs {
+        for b in &pairs {
+            for c in &pairs {
+                if [a, b, c].iter().filter(|x| x.is_some()).count() < 2 {
+                    continue;
+                }
+                let mut s: Vec<Vec<Sym>> = vec![];
+                if let Some((u, v)) = a {
+                    s.push(vec![T(0), R(1), T(*u)]);
+                    s.push(vec![T(0), R(2), T(*v)]);
+                }
+                if let Some((u, v)) = b {
+                    s.push(vec![T(1), T(1), T(1), R(1), T(*u)]);
+                    s.push(vec![T(1), T(1), T(1), R(2), T(*v)]);
+                }
+                if let Some((u, v)) = c {
+                    s.push(vec![T(2), T(3), R(3), T(*u)]);
+                    s.push(vec![T(2), T(3), R(4), T(*v)]);
+                }
+                out.push(g(
+                    15,
+                    vec![
+                        s,
+                        vec![vec![T(4), R(3)]],
+                        vec![vec![T(4), R(4)]],
+                        vec![vec![T(5), T(7)], vec![T(6), T(8)]],
+                        vec![vec![T(5), T(9)], vec![T(6), T(10)]],
+                    ],
+                ));
+            }
+        }
+    }
+    out
 }
